@@ -10,6 +10,7 @@ package fakeprom
 //	for _, h := range srv.Held() { srv.Release(h.Seq) }   // in any order
 //	srv.Requests()                              // every request seen, in arrival order
 //	srv.Problems()                              // protocol trouble: unparsable / fractional parameters, wrong path
+//	bm.Orders                                   // optional: per-slice order in which the series are listed in a response
 //
 // Presence model: a sample of series s exists at unix second t  <=>  bit floor((t-Origin)/Step) of s is set.
 // Any set of timestamps that lies on ONE grid of period Step (whatever its phase) maps one-to-one to bit
@@ -37,6 +38,10 @@ type Bitmap struct {
 	Origin int64          `json:"origin"` // unix seconds of bit 0
 	Step   int64          `json:"step"`   // seconds
 	Series []BitmapSeries `json:"series"`
+	// Orders (optional): permutations of the series indexes. The response to a request lists the series in the order
+	// Orders[(start/1800) % len(Orders)], so neighbouring slices can list them differently (Prometheus gives no
+	// ordering guarantee for a matrix). Empty = declaration order.
+	Orders [][]int `json:"orders,omitempty"`
 }
 
 // Expand returns the bits of series i (length = sum of runs).
@@ -214,14 +219,34 @@ func (s *BitmapServer) handle(w http.ResponseWriter, r *http.Request) {
 }
 
 func (s *BitmapServer) answer(req RangeRequest) string {
+	order := make([]int, len(s.bm.Series))
+	for i := range order {
+		order[i] = i
+	}
+	if n := len(s.bm.Orders); n > 0 {
+		if o := s.bm.Orders[int((req.Start/1800)%int64(n)+int64(n))%n]; len(o) == len(order) {
+			seen := make([]bool, len(order))
+			ok := true
+			for _, i := range o {
+				if i < 0 || i >= len(order) || seen[i] {
+					ok = false
+					break
+				}
+				seen[i] = true
+			}
+			if ok {
+				order = o
+			}
+		}
+	}
 	out := make([]MatrixSeries, len(s.bm.Series))
-	for i := range s.bm.Series {
-		out[i].Labels = s.bm.Series[i].Labels
+	for pos, i := range order {
+		out[pos].Labels = s.bm.Series[i].Labels
 		bits := s.bits[i]
 		for t := req.Start; t <= req.End; t += req.Step {
 			idx := s.bm.Index(t)
 			if idx >= 0 && idx < int64(len(bits)) && bits[idx] {
-				out[i].Times = append(out[i].Times, t)
+				out[pos].Times = append(out[pos].Times, t)
 			}
 		}
 	}
